@@ -81,7 +81,7 @@ def validate(ctx, recs):
 def run(ctx):
     q = ctx.quick
     ctx.cov["rule"] = ("multi-track SMF files built through the public API (1-6 tracks, 0-45 events per track, >=13 events on one tick, one-tick / heavy-tick / "
-                       "interleaved / random tick patterns, meta and sysex mixed in, tempo changes, identical channel messages across and inside tracks), read with "
+                       "interleaved / random tick patterns, meta and sysex mixed in, tempo changes, identical channel messages across and inside tracks, twin tracks starting with the same run of messages), read with "
                        "ReadTracksFrom(selection...), played with MultiPlay / Play to recording drivers.Out fakes; selections: all, subsets, single, out of range, repeated; "
                        "port maps: own, shared, default only, default+some, some without default (+foreign key), default = mapped, Play(out). TLC searches for an attribution of "
                        "the observed sends to track heads that is a behaviour of spec/Player.tla. distinct by file+selection+map hash; non-trivial = >= 13 playable events on one tick")
@@ -118,7 +118,7 @@ def run(ctx):
     ctx.count(len(recs), [hash(json.dumps([r["file"], r["sel"], r["ports"], r["mode"]])) for r in recs if "tick_ge13" in r["feat"]],
               [{"tracks": len(r["tracks"]), "events": sum(len(t) for t in r["tracks"]), "sel": r["sel"], "ports": r["ports"], "mode": r["mode"],
                 "sends": len(r["sends"]), "dur_us": r["dur_us"], "feat": r["feat"]} for r in recs[:2]])
-    for need in ("tick_ge13", "total_ge13", "meta", "sysex", "duplicate_msg", "sel_subset", "ports_default_only", "ports_some_no_default", "pat_interleave", "mode_play"):
+    for need in ("tick_ge13", "total_ge13", "meta", "sysex", "duplicate_msg", "sel_subset", "ports_default_only", "ports_some_no_default", "pat_interleave", "mode_play", "twin_prefix"):
         if not feats.get(need):
             raise Machinery("generator did not produce feature %s" % need)
     ctx.report(fails, lambda f: rerun(ctx, f.payload["record"])[0])
